@@ -1591,7 +1591,12 @@ def c19_btp(rp):
         kw = {"gamma": _custom_gamma} if rp.get("gamma") == "custom" else {}
         m = mk_model(name, rp["params"], **kw)
         try:
-            out[name] = values(m.rate(mk_game(name, rp["game"]), ranks=rp.get("ranks")))
+            g = mk_game(name, rp["game"])
+            if rp.get("alias") == "across":
+                g[1][0] = g[0][0]
+            elif rp.get("alias") == "within":
+                g[0][1] = g[0][0]
+            out[name] = values(m.rate(g, ranks=rp.get("ranks")))
         except Exception as e:  # noqa: BLE001
             out[name] = ("raises", type(e).__name__, str(e)[:80])
     return out["BradleyTerryFull"] != out["BradleyTerryPart"], f"two-team game: BradleyTerryFull {str(out['BradleyTerryFull'])[:90]} ; BradleyTerryPart {str(out['BradleyTerryPart'])[:90]}"
